@@ -331,9 +331,16 @@ def rule_c_d(repo, chk):
     rf = [n for n in g.nodes if n.kind == 'stmt' and any(src(e) == reqv for _c, _r, e in pat.fire_calls(n.ast))]
     need(rf, 'C13.c: _on_read never fires the request event')
     complete_T = pat.test_edge(lambda tt, pol: pol == 'T' and src(tt).endswith('.is_message_complete()'))
-    clen_F = pat.test_edge(lambda tt, pol: pol == 'F' and src(tt) == 'clen')
+    def _mentions(tt, what):
+        # the atom itself, or the local it names, is computed from <what>
+        if what in src(tt):
+            return True
+        if isinstance(tt, ast.Name):
+            return any(what in src(e) for e in pat.local_feeds(h, tt.id))
+        return False
+    clen_F = pat.test_edge(lambda tt, pol: pol == 'F' and _mentions(tt, 'Content-Length'))
     # "not chunked" must be the parser's own verdict (the parser decides case-insensitively; a second, different test here would disagree)
-    chunk_F = pat.test_edge(lambda tt, pol: pol == 'F' and src(tt).endswith('.is_chunked()'))
+    chunk_F = pat.test_edge(lambda tt, pol: pol == 'F' and _mentions(tt, '.is_chunked()'))
     own_tests = [n for n in g.nodes if n.kind == 'test' and 'Transfer-Encoding' in src(n.ast)]
     chk.ob('c', h.ref, 'whether a body is chunked is decided by the parser alone (no second, possibly disagreeing test on the raw header)', not own_tests,
            loc(h, (own_tests[0].ast if own_tests else h.node)), detail='; '.join(src(n.ast) for n in own_tests), discr='chunked-verdict-from-parser')
